@@ -58,12 +58,13 @@ def make_driver():
             f"ok|prepfail|prepfail1) echo \"R {key} {arg}/$fp/$VF_EARG $n\" > result.txt ;; "
             f"fail) exit 3 ;; "
             f"nofile) : ;; "
+            f"okempty) : > result.txt ;; "
             f"okat*) k=${{plan#okat}}; if [ \"$n\" -ge \"$k\" ]; then echo \"R {key} {arg}/$fp/$VF_EARG $n\" > result.txt; else exit 4; fi ;; "
             f"esac"
         )
 
     MISSING = "/nonexistent/vf-missing-exe"
-    OPTS = {"strfiles": False, "plain": False}     # (prep's `self` is the bound job, not the driver: the switch lives in this closure)
+    OPTS = {"strfiles": False, "plain": False, "reduce": "all"}     # (prep's `self` is the bound job, not the driver: the switch lives in this closure)
 
     def _cmds(exe, key, planroot, arg, broken=()):
         # `key` in broken: no command of the unit can be started; "late:"+key: only the SECOND command cannot (the first one has run by then)
@@ -106,7 +107,8 @@ def make_driver():
 
         @calc_ens.reduce
         def calc_ens(self, outputs, ens, *a, **kw):
-            texts = list(outputs)
+            # a reduce step may look at every per-conformer result, or stop after the first one it needs
+            texts = list(outputs) if OPTS["reduce"] == "all" else [next(iter(outputs))]
             new = ml.ConformerEnsemble(ens)
             new.attrib["results"] = texts
             return new
@@ -134,7 +136,7 @@ def make_driver():
 
         @lenient_ens.reduce
         def lenient_ens(self, outputs, ens, *a, **kw):
-            texts = list(outputs)
+            texts = list(outputs) if OPTS["reduce"] == "all" else [next(iter(outputs))]
             new = ml.ConformerEnsemble(ens)
             new.attrib["results"] = texts
             return new
@@ -151,7 +153,7 @@ def plain_value(txt):
 
 def outcome(plan, n):
     """(commands succeeded and return file present?) for attempt number n"""
-    if plan == "ok":
+    if plan in ("ok", "okempty"):
         return True
     if plan in ("fail", "nofile", "prepfail"):
         return False
@@ -283,6 +285,7 @@ def check(r) -> list[Fail]:
             late = sorted({all_units[i % len(all_units)] for i in run.get("late", [])} - set(broken))   # units whose SECOND command cannot be started
             drv.vf_opts["strfiles"] = bool(r.get("strfiles"))
             drv.vf_opts["plain"] = plain
+            drv.vf_opts["reduce"] = "first" if r.get("reduce_first") else "all"
             job = getattr(drv, jobname)
             before_counts = dict(count)
             try:
@@ -325,6 +328,8 @@ def check(r) -> list[Fail]:
                         continue
                     ok = outcome(plan[u], n) or (r["lenient"] and plan[u] == "nofile")   # the lenient job does not ask for result.txt
                     txt = f"R {u} {arg}/{farg}/{earg} {n}"
+                    if plan[u] == "okempty" and not r["lenient"]:
+                        txt = ""        # the program succeeded and its result file is legitimately EMPTY (no hits, no warnings): a result like any other
                     cache[u] = (hkey, ok, txt)
                     count[u] = n
                     if ok:
@@ -332,7 +337,7 @@ def check(r) -> list[Fail]:
                     else:
                         ok_all = False
                 if ok_all:
-                    model_dst[k] = texts if vec else (plain_value(texts[0]) if plain else texts[0])
+                    model_dst[k] = (texts[:1] if r.get("reduce_first") else texts) if vec else (plain_value(texts[0]) if plain else texts[0])
             # ---- observations
             for u in count:
                 p = os.path.join(planroot, u + ".count")
@@ -407,6 +412,10 @@ def classify(r):
         lab.append("destination=generic_Collection_with_falsy_values")
     if r.get("dotkeys"):
         lab.append("keys_with_dots")
+    if r["vec"] and r.get("reduce_first"):
+        lab.append("reduce_stops_after_first_result")
+    if "okempty" in plans:
+        lab.append("empty_return_file")
     if r.get("relcache"):
         lab.append("relative_cache_and_scratch_dirs")
     if any(run.get("late") for run in r["runs"]):
@@ -419,7 +428,7 @@ def classify(r):
 
 
 def strat(tier):
-    planv = st.sampled_from(["ok", "ok", "fail", "okat2", "okat3", "nofile", "prepfail", "prepfail1"])
+    planv = st.sampled_from(["ok", "ok", "fail", "okat2", "okat3", "nofile", "prepfail", "prepfail1", "okempty"])
     item = st.fixed_dictionaries({"nconf": st.integers(1, 3), "plans": st.lists(planv, min_size=1, max_size=3)})
     ev = st.one_of(st.tuples(st.just("delete"), st.integers(0, 20)).map(list), st.tuples(st.just("truncate"), st.integers(0, 20)).map(list), st.tuples(st.just("pollute"), st.integers(0, 20), st.integers(0, 20)).map(list))
     run = st.fixed_dictionaries({"arg": st.sampled_from([0, 0, 0, 1, 2]), "farg": st.sampled_from([0, 0, 0, 1]), "earg": st.sampled_from([0, 0, 0, 1]), "cache_events": st.lists(ev, max_size=2), "new_dest": st.sampled_from([False, False, True]), "lax": st.sampled_from([False, False, False, True]),
@@ -431,12 +440,13 @@ def strat(tier):
         "pre_source_keys": st.lists(st.integers(0, 9), max_size=2), "n_foreign": st.sampled_from([0, 0, 1, 2]),
         "runs": st.lists(run, min_size=2, max_size=3 if tier == "quick" else 4),
         "posargs": st.booleans(), "strfiles": st.booleans(), "dotkeys": st.booleans(), "relcache": st.booleans(), "plain": st.sampled_from([False, False, True]),
+        "reduce_first": st.sampled_from([False, True]),
     })
 
 
 LEGS = [
     Leg("hist", check, classify, strategy=strat, n={"quick": 48, "thorough": 600}, shards={"quick": 16, "thorough": 16}, timeout={"quick": 900, "thorough": 14000},
-        rule="generated histories: 2-4/5 items (single molecules or ensembles of 1-3 conformers) with per-unit plans {ok, fail, ok at 2nd/3rd attempt, omit return file, first (unnamed) command fails always / once}, 2-3/4 jobmap runs whose arguments change the command line, only the content of an input file, or only the value of an environment variable (all must change the hash), "
+        rule="generated histories: 2-4/5 items (single molecules or ensembles of 1-3 conformers) with per-unit plans {ok, ok with an EMPTY return file, fail, ok at 2nd/3rd attempt, omit return file, first (unnamed) command fails always / once}, 2-3/4 jobmap runs whose arguments change the command line, only the content of an input file, or only the value of an environment variable (all must change the hash), "
              "0-2 pre-populated source keys, 0-2 foreign destination keys, cache events (delete one output, copy another input's output into a slot) between runs, optionally a fresh empty destination with the old cache directory, runs in which the program of some unit cannot be started (the runner dies before writing an output), strict (needs return file) and lenient (stdout only) post-processors, strict_hash on (default) / off per run, "
-             "single and vectorised jobs; every job is a real _molli_run launch; evaluations = jobmap runs; non-trivial = a rerun after a failure, or an argument change with a populated cache"),
+             "single and vectorised jobs (reduce step consuming all per-conformer results or only the first); every job is a real _molli_run launch; evaluations = jobmap runs; non-trivial = a rerun after a failure, or an argument change with a populated cache"),
 ]
